@@ -9,6 +9,7 @@ import (
 	"os"
 	"path/filepath"
 	"runtime"
+	"runtime/metrics"
 	"time"
 
 	_ "github.com/evanphx/json-patch/v5/zzverif/cli"
@@ -35,6 +36,22 @@ func main() {
 	schedules := flag.Int("schedules", 6, "schedules per concurrent scenario")
 	bin := flag.String("bindir", "", "directory with the built command binaries (cli engine)")
 	flag.Parse()
+
+	// Safety net, not an oracle: the sandbox has no memory limit, so a change that allocates
+	// without bound must not take the machine down.  The worker gives up (exit 3 = machinery
+	// trouble for the driver, which still reports what reproduces from the replay files).
+	go func() {
+		sample := []metrics.Sample{{Name: "/memory/classes/total:bytes"}}
+		limit := uint64(10 << 30)
+		for {
+			time.Sleep(250 * time.Millisecond)
+			metrics.Read(sample)
+			if sample[0].Value.Kind() == metrics.KindUint64 && sample[0].Value.Uint64() > limit {
+				fmt.Fprintf(os.Stderr, "worker: memory use exceeded %d bytes; giving up (machinery safety net, not a verdict)\n", limit)
+				os.Exit(3)
+			}
+		}
+	}()
 
 	build := map[string]string{"go": runtime.Version(), "race": fmt.Sprint(simrt.RaceEnabled), "instrumented_tree_sha256": *tree}
 	exe, _ := os.Executable()
